@@ -242,8 +242,13 @@ def generate(tier, rng, n=None):
         if flavour == "ssl":
             lines.append("hs c0 ok")
         lines.append("rderr c0 %s" % rng.choice(["eof", "reset"]))
-        lines.append(rng.choice(["sleep 60", "sleep 60", "sleep 1"]))
-        lines.append(rng.choice(["cl-destroy", "cl-destroy", "cl-close"]))
+        if rng.chance(1, 2):
+            # the application's own timer destroys the client in the same pass of the event loop in which the client's
+            # expired reconnection timer has already been queued
+            lines += ["cl-kill-timer 1", "sleep 60"]
+        else:
+            lines.append(rng.choice(["sleep 60", "sleep 60", "sleep 1"]))
+            lines.append(rng.choice(["cl-destroy", "cl-destroy", "cl-close"]))
         lines += ["poll", "wait 40", "state"]
         cases.append(Case("cli-tm-%d" % k, lines, {"impl_only": True, "sent": [], "expect_rx": None, "garbage": False,
                                                    "teardown": "timer", "tags": ["client", flavour, "timer-teardown"]}))
